@@ -1,0 +1,119 @@
+// SPDX-FileCopyrightText: 2026 The Pion community <https://pion.ly>
+// SPDX-License-Identifier: MIT
+
+//go:build verif
+
+package oggwriter
+
+// Spec functions for the contract-based verification in /verif (build tag verif).
+
+// specCrcStep: one bit of the Ogg CRC-32 (RFC 3533: polynomial 0x04c11db7, MSB first).
+func specCrcStep(r uint32) uint32 {
+	if r&0x80000000 != 0 {
+		return (r << 1) ^ 0x04c11db7
+	}
+
+	return r << 1
+}
+
+// specCrcSteps: k bit steps.
+func specCrcSteps(r uint32, k int) uint32 {
+	if k <= 0 {
+		return r
+	}
+
+	return specCrcStep(specCrcSteps(r, k-1))
+}
+
+// specCrcTableEntry: the table entry for a top byte — eight bit steps of byte<<24.
+func specCrcTableEntry(i uint32) uint32 {
+	return specCrcStep(specCrcStep(specCrcStep(specCrcStep(specCrcStep(specCrcStep(specCrcStep(specCrcStep(i << 24))))))))
+}
+
+// specCrc: the Ogg page checksum of the first n bytes of b — initial value 0, no
+// reflection, no final xor, one table-driven byte step per byte.
+func specCrc(table *[256]uint32, b []byte, n int) uint32 {
+	if n <= 0 {
+		return 0
+	}
+	c := specCrc(table, b, n-1)
+
+	return (c << 8) ^ table[byte(c>>24)^b[n-1]]
+}
+
+// specOpusFrameSamples: samples per Opus frame at 48 kHz for a TOC byte (RFC 6716
+// section 3.1, table 2): configurations 0-11 SILK 10/20/40/60 ms, 12-15 hybrid 10/20 ms,
+// 16-31 CELT 2.5/5/10/20 ms.
+func specOpusFrameSamples(toc byte) uint32 {
+	config := toc >> 3
+	switch {
+	case config < 12:
+		switch config & 3 {
+		case 0:
+			return 480
+		case 1:
+			return 960
+		case 2:
+			return 1920
+		}
+
+		return 2880
+	case config < 16:
+		if config&1 == 0 {
+			return 480
+		}
+
+		return 960
+	}
+	switch config & 3 {
+	case 0:
+		return 120
+	case 1:
+		return 240
+	case 2:
+		return 480
+	}
+
+	return 960
+}
+
+// specOpusFrameCount: frames in a packet by its code (RFC 6716 section 3.2); 0 = invalid.
+func specOpusFrameCount(payload []byte) uint8 {
+	if len(payload) == 0 {
+		return 0
+	}
+	switch payload[0] & 3 {
+	case 0:
+		return 1
+	case 1, 2:
+		return 2
+	}
+	if len(payload) < 2 {
+		return 0
+	}
+
+	return payload[1] & 0x3f
+}
+
+// specOpusPacketSamples: total samples of a packet, valid only up to 120 ms (5760).
+func specOpusPacketSamples(payload []byte) uint64 {
+	return uint64(specOpusFrameSamples(payload[0])) * uint64(specOpusFrameCount(payload))
+}
+
+// specPageFlags: header type flags of one page of a packet (RFC 3533 section 6): continued
+// packet flag on every page but the first, beginning-of-stream only on the first page,
+// end-of-stream only on the page that completes the packet.
+func specPageFlags(headerType uint8, firstPage, packetComplete bool) uint8 {
+	var f uint8
+	if !firstPage {
+		f |= 0x01
+	}
+	if firstPage {
+		f |= headerType & 0x02
+	}
+	if packetComplete {
+		f |= headerType & 0x04
+	}
+
+	return f
+}
